@@ -14,6 +14,32 @@ def main():
     ap.add_argument('--replay')
     a = ap.parse_args()
     pid = a.pid.upper()
+    if not os.environ.get('VERIF_SUPERVISED'):
+        # supervisor: the check proper runs in a child process.  Exit codes 0 and 1 are its verdicts; anything else means
+        # the interpreter died (e.g. a segmentation fault in scipy / h5py when a changed library writes or reads malformed
+        # arrays).  The property is then no longer shown to hold: say so in the agreed form, with the case that was running.
+        import json
+        import subprocess
+        rc = subprocess.call([sys.executable, '-W', 'ignore', '-m', 'harness.main'] + sys.argv[1:],
+                             env=dict(os.environ, VERIF_SUPERVISED='1'))
+        if rc in (0, 1):
+            sys.exit(rc)
+        journal = os.path.join(core.OUT, 'replays', '.current-%s.json' % pid)
+        payload = {'tier': a.tier, 'seed': a.seed, 'kind': 'the interpreter running the implementation died',
+                   'broken': [{'what': 'the check process ended with status %s (negative = killed by that signal) while running '
+                                       'the implementation' % rc, 'detail': 'see case'}]}
+        tail = 'no-failing-input-found'
+        if os.path.exists(journal):
+            try:
+                payload['case'] = json.load(open(journal))
+                payload['failure'] = 'the library crashed the interpreter (status %s) on this case' % rc
+                tail = ''
+            except ValueError:
+                pass
+            os.remove(journal)
+        path = core.write_replay(pid, a.seed, payload)
+        print(('VIOLATION property=%s replay=%s %s' % (pid, path, tail)).rstrip())
+        sys.exit(1)
     try:
         mod = importlib.import_module('harness.%s' % pid.lower())
         rc = core.run_check(mod, a.tier, a.seed, a.replay)
